@@ -412,6 +412,9 @@ class ReactionQueryReader(object):
         assert tree[1][0] == 'ReactantName'
         assert tree[2][0] == 'LabelMapping'
         labelmapping = self.LabelMapping(tree[2][1:])
+        if tree[1][1] not in reactionquery.reactantquery:
+            raise RINGReaderError("ReadDuplicates: Unrecognized reactant name:'"
+                                  + tree[1][1] + "'")
         if len(labelmapping) != len(reactionquery.reactantquery[tree[1][1]].
                                     atom_names):
             raise RINGReaderError('ReadDuplicates: Labelmapping length',
@@ -424,7 +427,7 @@ class ReactionQueryReader(object):
                               atom_names)):
             try:
                 reactionquery.reactantquery[tree[0][1]].atom_names[i] = \
-                    labelmapping[reactionquery.reactantquery[tree[0][0]].
+                    labelmapping[reactionquery.reactantquery[tree[0][1]].
                                  atom_names[i]]
             except KeyError:
                 s = 'Unrecognized label '
